@@ -378,6 +378,7 @@ func mergeMap(dst, src map[string]int64) {
 }
 
 type workerSpec struct {
+	tier                string
 	from, stride, count int64
 	seconds             float64
 	gomaxprocs          int
@@ -392,6 +393,9 @@ func runWorker(bi *buildInfo, pc *propCfg, seed uint64, w int, spec workerSpec, 
 		"-stride", strconv.FormatInt(spec.stride, 10), "-out", outFile, "-sub", spec.sub, "-samples", strconv.Itoa(spec.samples)}
 	if spec.count > 0 {
 		args = append(args, "-count", strconv.FormatInt(spec.count, 10))
+	}
+	if spec.tier != "" {
+		args = append(args, "-tier", spec.tier)
 	}
 	if spec.seconds > 0 {
 		args = append(args, "-seconds", strconv.FormatFloat(spec.seconds, 'f', 1, 64))
